@@ -5,7 +5,7 @@
 (*   w: every write call with the sanitisation mode observed before it and the writer's bytes    *)
 (*      observed after it;  r: the read-back calls made on a reader over the final bytes.         *)
 (* Verdict entries <<row, event, code>>: 1 Atomic 2 ExactLength 3 SanitisedNoFF 4 ExactImage     *)
-(* 8 wrong accept/refuse decision (C09); 5 read-back value 6 not consumed exactly 7 read raised (C04); 9 harness made a read     *)
+(* 8 wrong accept/refuse decision (C09); 5 read-back value 6 not consumed exactly 7 read raised (C04); 11 an acceptable write raised (C04); 10 the writer's output, once taken, changed (C04); 9 harness made a read     *)
 (* that is not the matching one (machinery).                                                     *)
 EXTENDS EoWire, TLC
 Before(ws, i) == IF i = 1 THEN <<>> ELSE ws[i - 1].after
@@ -18,6 +18,8 @@ WCodes(ws, i) ==
       \cup (IF WR!ExactImage(h.call, h.san, b, h.after, h.exc) THEN {} ELSE {4})
       \* refused exactly when the spec refuses (the decision depends on the call alone)
       \cup (IF h.exc = WR!WApply(WR!NewWriter, h.call).exc THEN {} ELSE {8})
+      \* a write the spec accepts could not be made at all: nothing can be read back (C04)
+      \cup (IF h.exc # "" /\ WR!WApply(WR!NewWriter, h.call).exc = "" THEN {11} ELSE {})
 AcceptedIdx(ws) == SelectSeq([i \in 1..Len(ws) |-> i], LAMBDA i : ws[i].exc = "" /\ ws[i].call.op # "set_san")
 RCodes(ws, rs, acc, j) ==
   LET h == ws[acc[j]]
@@ -31,6 +33,7 @@ RowBad(k, row) ==
       \cup (IF Len(row.r) # Len(acc) THEN {<<k, 0, 9>>}
             ELSE UNION {{<<k, 1000 + j, c>> : c \in RCodes(row.w, row.r, acc, j)} : j \in 1..Len(acc)})
       \cup (IF row.rem = 0 THEN {} ELSE {<<k, 2000, 6>>})
+      \cup (IF row.stable = 1 THEN {} ELSE {<<k, 2001, 10>>})       \* output taken earlier changed when more was written
 Bad(blk) == UNION {RowBad(k, blk.rows[k]) : k \in 1..Len(blk.rows)}
 VARIABLES g, k
 D == INSTANCE BulkDriver WITH BadRows <- Bad
